@@ -14,11 +14,13 @@ package main
 //   r<e>   server sends the complete reply to e's query     rs<e> same, in three segments
 //   rb<e>  server sends a complete frame that does not decode
 //   rp<e>  server sends half of the reply, then closes     x<e>  server closes e's connection
+//   rr<e>  server sends the reply to e's query twice      du<e>  before replying to e the server repeats
+//   di     every unused connection gets a copy of the last frame the server sent on it   the last frame it sent
 //   xi     server closes every connection that is currently not in use
 //   t      sleep over the idle timeout              C     ReuseConnTransport.Close
 // out  : h=<events> — D<c> dial, U<c>.<q> conn c handed to exchange q (Write entered),
-//   W<c>.<q> server received query q, R<c>.<q> client consumed the whole reply to q,
-//   B<c>.<q> client consumed an undecodable frame, E<c> a Write/Read failed, X<c> client closed c,
+//   W<c>.<q>.<i> server received query q carrying wire id i, R<c>.<q>.<i> client consumed a whole
+//   decodable frame with wire id i answering q, B<c> client consumed an undecodable frame, E<c> a Write/Read failed, X<c> client closed c,
 //   T transport closed, A<e>.<q> e returned a message carrying nonce q (and q's ID),
 //   F<e> e returned an error, G<e> e returned its ctx error.
 // Within one op events are put into a canonical order (the order of the model's schedule).
@@ -77,8 +79,18 @@ type c06ev struct {
 }
 
 type c06frame struct {
-	nonce  int
+	nonce  int // the exchange whose query this frame answers
+	id     int // DNS id on the wire
+	good   bool
 	remain int
+}
+
+// a frame the server has sent (it may send it again)
+type c06sent struct {
+	bytes []byte
+	nonce int
+	id    int
+	good  bool
 }
 
 type c06conn struct {
@@ -96,7 +108,7 @@ type c06conn struct {
 	frames     []*c06frame // replies (partly) sent and not completely consumed, oldest first
 	owedQ      [][]byte    // queries received and not answered yet
 	owedN      []int
-	badFrames  map[*c06frame]bool
+	sent       []c06sent
 }
 
 type c06dial struct {
@@ -148,7 +160,16 @@ func (c06addr) String() string  { return "fake" }
 func c06name(e int) string { return fmt.Sprintf("q%04d.test.", e) }
 func c06id(e int) uint16   { return uint16(e*7 + 1) }
 
-// nonce carried by a framed (2-byte length) query
+// wire id of a framed query
+func c06wireID(b []byte) int {
+	if len(b) < 4 {
+		return 999996
+	}
+	return int(binary.BigEndian.Uint16(b[2:]))
+}
+
+// nonce carried by a framed (2-byte length) query: the exchange is identified by the question
+// name only — the transport sends its own per-connection ids
 func c06nonceOf(b []byte) int {
 	if len(b) < 2+12 {
 		return 999996 // not a query at all
@@ -161,9 +182,6 @@ func c06nonceOf(b []byte) int {
 	fmt.Sscanf(q.Question[0].Name, "q%d.test.", &n)
 	if n < 0 {
 		return 999996
-	}
-	if q.Id != c06id(n) {
-		return 999995 // name and ID of different queries
 	}
 	return n
 }
@@ -199,7 +217,7 @@ func (c *c06conn) Write(b []byte) (int, error) {
 		return 0, errors.New("broken pipe")
 	}
 	n1 := c06nonceOf(b) // the bytes as they are when they reach the server
-	h.event(c06W, c.id, n1, fmt.Sprintf("W%d.%d", c.id, n1))
+	h.event(c06W, c.id, n1, fmt.Sprintf("W%d.%d.%d", c.id, n1, c06wireID(b)))
 	c.owedQ = append(c.owedQ, append([]byte(nil), b[2:]...))
 	c.owedN = append(c.owedN, n1)
 	c.curNonce = n1
@@ -216,10 +234,10 @@ func (c *c06conn) consume(n int) {
 		f.remain -= k
 		n -= k
 		if f.remain == 0 {
-			if c.badFrames[f] {
-				c.h.event(c06B, c.id, f.nonce, fmt.Sprintf("B%d.%d", c.id, f.nonce))
+			if !f.good {
+				c.h.event(c06B, c.id, f.nonce, fmt.Sprintf("B%d", c.id))
 			} else {
-				c.h.event(c06R, c.id, f.nonce, fmt.Sprintf("R%d.%d", c.id, f.nonce))
+				c.h.event(c06R, c.id, f.nonce, fmt.Sprintf("R%d.%d.%d", c.id, f.nonce, f.id))
 			}
 			c.frames = c.frames[1:]
 		}
@@ -310,7 +328,7 @@ func (h *c06case) dial(ctx context.Context) (net.Conn, error) {
 	if !g.ok {
 		return nil, errors.New("dial failed")
 	}
-	c := &c06conn{h: h, id: len(h.conns), badFrames: map[*c06frame]bool{}}
+	c := &c06conn{h: h, id: len(h.conns)}
 	h.conns = append(h.conns, c)
 	h.event(c06D, c.id, 0, fmt.Sprintf("D%d", c.id))
 	return c, nil
@@ -460,8 +478,8 @@ func c06classify(e int, r *dnsmsg.Msg, err error, ctx context.Context) string {
 				if a, ok := mm.Answer[0].(*dns.A); ok {
 					ip := a.A.To4()
 					nonce = int(ip[1])<<16 | int(ip[2])<<8 | int(ip[3])
-					if mm.Question[0].Name != c06name(nonce) || r.Header.ID != c06id(nonce) {
-						nonce = 999998 // inconsistent message
+					if mm.Question[0].Name != c06name(nonce) || r.Header.ID != c06id(e) {
+						nonce = 999998 // inconsistent message, or not the caller's own ID
 					}
 				}
 			}
@@ -538,7 +556,7 @@ func (h *c06case) dialOf(e int) *c06dial {
 	return nil
 }
 
-// server: frame for the oldest unanswered query of c
+// server: frame for the oldest unanswered query of c; the reply echoes the id found on the wire
 func (c *c06conn) nextFrame(good bool) []byte {
 	q, n := c.owedQ[0], c.owedN[0]
 	c.owedQ, c.owedN = c.owedQ[1:], c.owedN[1:]
@@ -554,11 +572,30 @@ func (c *c06conn) nextFrame(good bool) []byte {
 	fr := make([]byte, 2+len(body))
 	binary.BigEndian.PutUint16(fr, uint16(len(body)))
 	copy(fr[2:], body)
-	f := &c06frame{nonce: n, remain: len(fr)}
-	c.frames = append(c.frames, f)
-	if !good {
-		c.badFrames[f] = true
-	}
+	st := c06sent{bytes: fr, nonce: n, id: int(binary.BigEndian.Uint16(q)), good: good}
+	c.sent = append(c.sent, st)
+	c.frames = append(c.frames, &c06frame{nonce: st.nonce, id: st.id, good: st.good, remain: len(fr)})
+	return fr
+}
+
+// server: the k-th frame it sent on c, once more
+func (c *c06conn) dupFrame(k int) []byte {
+	st := c.sent[k]
+	c.frames = append(c.frames, &c06frame{nonce: st.nonce, id: st.id, good: st.good, remain: len(st.bytes)})
+	return st.bytes
+}
+
+// server: a well-formed reply nobody asked for (answer to an invented query with the given id)
+func (c *c06conn) strayFrame(nonce, id int) []byte {
+	q := new(dns.Msg)
+	q.SetQuestion(c06name(nonce), dns.TypeA)
+	q.Id = uint16(id)
+	qb, _ := q.Pack()
+	body := c06reply(qb, nonce)
+	fr := make([]byte, 2+len(body))
+	binary.BigEndian.PutUint16(fr, uint16(len(body)))
+	copy(fr[2:], body)
+	c.frames = append(c.frames, &c06frame{nonce: nonce, id: id, good: true, remain: len(fr)})
 	return fr
 }
 
@@ -573,7 +610,7 @@ func (h *c06case) op(tok string) {
 	e, _ := strconv.Atoi(tok[len(letters):])
 	h.mu.Lock()
 	h.evs = nil
-	if letters != "t" && letters != "C" && letters != "xi" {
+	if letters != "t" && letters != "C" && letters != "xi" && letters != "di" {
 		h.curEx = e
 	}
 	h.mu.Unlock()
@@ -632,6 +669,28 @@ func (h *c06case) op(tok string) {
 		h.mu.Lock()
 		if c := h.readerOf(e); c != nil {
 			h.send(c, c.nextFrame(letters == "r"))
+		}
+		h.mu.Unlock()
+	case "rr": // the reply, and a second copy of it right behind
+		h.mu.Lock()
+		if c := h.readerOf(e); c != nil {
+			fr := c.nextFrame(true)
+			fr = append(append([]byte(nil), fr...), c.dupFrame(len(c.sent)-1)...)
+			h.send(c, fr)
+		}
+		h.mu.Unlock()
+	case "du": // before answering, the server repeats the last frame it sent on this connection
+		h.mu.Lock()
+		if c := h.readerOf(e); c != nil && len(c.sent) > 0 {
+			h.send(c, c.dupFrame(len(c.sent)-1))
+		}
+		h.mu.Unlock()
+	case "di": // every unused connection gets a copy of the last frame sent on it
+		h.mu.Lock()
+		for _, c := range h.conns {
+			if !c.closed && !c.peerClosed && !c.wBlocked && !c.rBlocked && c.inIO == 0 && len(c.sent) > 0 {
+				c.rbuf = append(c.rbuf, c.dupFrame(len(c.sent)-1)...)
+			}
 		}
 		h.mu.Unlock()
 	case "rs":
@@ -859,6 +918,18 @@ var c06fixed = []struct{ cat, cs string }{
 	{"retry-limit-close", "s1 s2 s3 s4 s5 s6 s7 dp1 dp2 dp3 dp4 dp5 dp6 dp7 w1 w2 w3 w4 w5 w6 w7 r1 r2 r3 r4 r5 r6 r7 xi s9 w9 w9 w9 w9 w9 w9 C dp9"},
 	// six stale connections only: the 7th attempt finds the pool empty anyway
 	{"retry-limit", "s1 s2 s3 s4 s5 s6 dp1 dp2 dp3 dp4 dp5 dp6 w1 w2 w3 w4 w5 w6 r1 r2 r3 r4 r5 r6 xi s9 w9 w9 w9 w9 w9 w9 dp9 w9 r9"},
+	// extra frames (31b269e): a reply sent twice, a stale copy on an idle connection, a stale copy in
+	// front of the real reply; the next user must reject the frame, drop the connection and retry
+	{"dup-reply", "s1 dp1 w1 rr1 s2 w2 dp2 w2 r2 s3 w3 r3"},
+	{"dup-reply", "s1 dp1 s2 dp2 w1 w2 rr1 rr2 s3 w3 w3 dp3 w3 r3 s4 w4 rr4 s5 w5 dp5 w5 rs5"},
+	{"dup-idle", "s1 dp1 w1 r1 di s2 w2 dp2 w2 r2 s3 w3 r3 di di s4 w4 dp4 w4 r4"},
+	{"dup-before-reply", "s1 dp1 w1 r1 s2 w2 du2 dp2 w2 r2 s3 w3 r3"},
+	{"dup-before-reply", "s1 dp1 w1 du1 r1 s2 w2 r2 s3 w3 du3 dp3 w3 du3 r3"},
+	{"dup-giveup", "s1 dp1 w1 rr1 s2 c2 w2 s3 dp3 w3 r3"},
+	{"dup-giveup", "s1 dp1 w1 c1 rr1 s2 w2 dp2 w2 r2"},
+	{"dup-bad", "s1 dp1 w1 rb1 dp1 w1 r1 s2 w2 r2"},
+	{"dup-close", "s1 dp1 w1 rr1 s2 C w2"},
+	{"dup-many", "s1 s2 s3 dp1 dp2 dp3 w1 w2 w3 rr1 rr2 rr3 s4 w4 w4 w4 dp4 w4 r4 s5 w5 r5"},
 	{"idle-timeout", "s1 dp1 w1 r1 t s2 dp2 w2 r2"},
 	{"idle-timeout", "s1 dp1 s2 dp2 w1 w2 r1 t r2 s3 w3 r3 s4 w4 r4"},
 	{"idle-timeout", "s1 c1 dp1 t s2 dp2 w2 r2"},
@@ -961,6 +1032,14 @@ func (g *c06gen) step() string {
 					if j < 3 {
 						return fmt.Sprintf("rs%d", e)
 					}
+					if j < 5 {
+						return fmt.Sprintf("rr%d", e)
+					}
+					if j == 5 {
+						g.fail(e) // (only if the connection was used before; otherwise a no-op)
+						g.idle--
+						return fmt.Sprintf("du%d", e)
+					}
 					return fmt.Sprintf("r%d", e)
 				case j < 15:
 					g.fail(e)
@@ -979,9 +1058,13 @@ func (g *c06gen) step() string {
 				g.gone[e] = true
 				return fmt.Sprintf("c%d", e)
 			}
-		case k < 89:
+		case k < 88:
 			if e, ok := g.pick(2); ok {
 				return fmt.Sprintf("x%d", e)
+			}
+		case k < 89:
+			if g.idle > 0 {
+				return "di"
 			}
 		case k < 92:
 			if g.idle > 0 {
